@@ -10,14 +10,14 @@ using namespace pbt;
 struct Fault { int fn = 0, k = 0, err = 0; };
 struct LifeCase {
   int nthreads = 1, flags = 0, skip_first = 0, attach_first = 0, nmsgs = 0, msg_pvt = 0, timer = 0, pipe_ev = 0, wait_early = 0,
-      shutdown_mode = 0, late_calls = 0, wait_mode = 1, destroy_in_pool_first = 0, slow_stop = 0, free_fd0 = 0;
+      shutdown_mode = 0, late_calls = 0, wait_mode = 1, destroy_in_pool_first = 0, slow_stop = 0, free_fd0 = 0, hooks_mode = 0;
   Bytes plan;
   std::vector<Fault> faults;
   std::string ser() const {
     Writer w;
     w.i("nthreads", nthreads).i("flags", flags).i("skip_first", skip_first).i("attach_first", attach_first).i("nmsgs", nmsgs)
         .i("msg_pvt", msg_pvt).i("timer", timer).i("pipe_ev", pipe_ev).i("wait_early", wait_early).i("shutdown_mode", shutdown_mode)
-        .i("late_calls", late_calls).i("wait_mode", wait_mode).i("destroy_in_pool_first", destroy_in_pool_first).i("slow_stop", slow_stop).i("free_fd0", free_fd0);
+        .i("late_calls", late_calls).i("wait_mode", wait_mode).i("destroy_in_pool_first", destroy_in_pool_first).i("slow_stop", slow_stop).i("free_fd0", free_fd0).i("hooks_mode", hooks_mode);
     w.b("plan", plan);
     std::vector<long long> f;
     for (auto &x : faults) { f.push_back(x.fn); f.push_back(x.k); f.push_back(x.err); }
@@ -30,7 +30,7 @@ struct LifeCase {
     c.nthreads = (int)r.i("nthreads", 1); c.flags = (int)r.i("flags"); c.skip_first = (int)r.i("skip_first"); c.attach_first = (int)r.i("attach_first");
     c.nmsgs = (int)r.i("nmsgs"); c.msg_pvt = (int)r.i("msg_pvt"); c.timer = (int)r.i("timer"); c.pipe_ev = (int)r.i("pipe_ev");
     c.wait_early = (int)r.i("wait_early"); c.shutdown_mode = (int)r.i("shutdown_mode"); c.late_calls = (int)r.i("late_calls");
-    c.wait_mode = (int)r.i("wait_mode", 1); c.destroy_in_pool_first = (int)r.i("destroy_in_pool_first"); c.slow_stop = (int)r.i("slow_stop"); c.free_fd0 = (int)r.i("free_fd0");
+    c.wait_mode = (int)r.i("wait_mode", 1); c.destroy_in_pool_first = (int)r.i("destroy_in_pool_first"); c.slow_stop = (int)r.i("slow_stop"); c.free_fd0 = (int)r.i("free_fd0"); c.hooks_mode = (int)r.i("hooks_mode");
     c.plan = r.b("plan");
     auto f = r.iv("faults");
     for (size_t j = 0; j + 3 <= f.size(); j += 3) c.faults.push_back(Fault{(int)f[j], (int)f[j + 1], (int)f[j + 2]});
@@ -67,7 +67,7 @@ static Verdict evaluate(const LifeCase &c, const c11_out &o) {
       }
       for (auto &kv : st) {
         PBT_REQUIRE(kv.second == 1, "failed tp_create ran the start hook " << kv.second << " times for one thread");
-        PBT_REQUIRE(sp[kv.first] == 1, "failed tp_create ran the start hook of thread object " << std::hex << kv.first << std::dec << " but its stop hook " << sp[kv.first]
+        if (c.hooks_mode == 0) PBT_REQUIRE(sp[kv.first] == 1, "failed tp_create ran the start hook of thread object " << std::hex << kv.first << std::dec << " but its stop hook " << sp[kv.first]
                                                                                                  << " times (thread-local user state set up by the start hook is never torn down)");
       }
       // (a stop hook without a start hook -- the virtual thread's own setup failed -- is not asserted either way: the property
@@ -124,9 +124,22 @@ static Verdict evaluate(const LifeCase &c, const c11_out &o) {
       PBT_REQUIRE(kv.second == 1, "stop hook ran " << kv.second << " times for " << (pvt ? "the virtual thread" : "one thread") << d.str());
     }
   }
-  for (auto &kv : starts) PBT_REQUIRE(stops.count(kv.first), "a thread ran its start hook but never its stop hook (history ended with a successful destroy)");
-  for (auto &kv : stops) PBT_REQUIRE(starts.count(kv.first), "a thread ran its stop hook without a start hook");
-  PBT_REQUIRE(starts.count(o.tpt_ptr[16]) == 1, "virtual thread start hook missing");
+  const bool has_start = (c.hooks_mode == 0 || c.hooks_mode == 1), has_stop = (c.hooks_mode == 0 || c.hooks_mode == 2);
+  if (has_start && has_stop) {
+    for (auto &kv : starts) PBT_REQUIRE(stops.count(kv.first), "a thread ran its start hook but never its stop hook (history ended with a successful destroy)");
+    for (auto &kv : stops) PBT_REQUIRE(starts.count(kv.first), "a thread ran its stop hook without a start hook");
+  }
+  if (!has_start) PBT_REQUIRE(starts.empty(), "a start hook ran although none was installed");
+  if (!has_stop) PBT_REQUIRE(stops.empty(), "a stop hook ran although none was installed");
+  if (has_start) PBT_REQUIRE(starts.count(o.tpt_ptr[16]) == 1, "virtual thread start hook missing");
+  if (has_stop) PBT_REQUIRE(stops.count(o.tpt_ptr[16]) == 1, "virtual thread stop hook missing (installed hook: " << (has_start ? "both" : "stop only") << ")");
+  // every worker that was seen running before the shutdown step ran each installed hook (exactly once: counts checked above)
+  for (int t = 0; t < c.nthreads; t++) {
+    if (!((o.ran_mask >> t) & 1)) continue;
+    if (has_start) PBT_REQUIRE(starts.count(o.tpt_ptr[t]) == 1, "thread " << t << " ran but its start hook did not");
+    if (has_stop) PBT_REQUIRE(stops.count(o.tpt_ptr[t]) == 1, "thread " << t << " ran but its stop hook did not (installed hook: " << (has_start ? "both" : "stop only") << ")");
+  }
+  if (c.hooks_mode) label(c.hooks_mode == 1 ? "only_start_hook_installed" : c.hooks_mode == 2 ? "only_stop_hook_installed" : "no_hooks_installed");
   // nothing after destroy returned
   PBT_REQUIRE(late_record < 0, "a hook or callback ran after tp_destroy() returned (log index " << late_record << " > " << destroy_ret << ")");
   PBT_REQUIRE(o.cb_after_destroy == 0, o.cb_after_destroy << " callback(s) ran after tp_destroy() returned");
@@ -158,7 +171,7 @@ static void to_scn(const LifeCase &c, c11_scn &s) {
   s.flags = (uint8_t)c.flags; s.skip_first = (uint8_t)c.skip_first; s.attach_first = (uint8_t)c.attach_first;
   s.nmsgs = (uint8_t)std::min(200, c.nmsgs); s.msg_pvt = (uint8_t)c.msg_pvt; s.timer = (uint8_t)c.timer; s.pipe_ev = (uint8_t)c.pipe_ev;
   s.wait_early = (uint8_t)c.wait_early; s.shutdown_mode = (uint8_t)c.shutdown_mode; s.late_calls = (uint8_t)c.late_calls;
-  s.wait_mode = (uint8_t)c.wait_mode; s.destroy_in_pool_first = (uint8_t)c.destroy_in_pool_first; s.slow_stop = (uint8_t)c.slow_stop; s.free_fd0 = (uint8_t)c.free_fd0;
+  s.wait_mode = (uint8_t)c.wait_mode; s.destroy_in_pool_first = (uint8_t)c.destroy_in_pool_first; s.slow_stop = (uint8_t)c.slow_stop; s.free_fd0 = (uint8_t)c.free_fd0; s.hooks_mode = (uint8_t)c.hooks_mode;
   s.plans.plan_len = (uint32_t)std::min<size_t>(c.plan.size(), TP_PLAN_MAX);
   memcpy(s.plans.plan, c.plan.data(), s.plans.plan_len);
   s.plans.nfaults = (uint32_t)std::min<size_t>(c.faults.size(), TP_FAULT_MAX);
@@ -196,7 +209,8 @@ static rc::Gen<LifeCase> genCase() {
     c.wait_mode = *rc::gen::weightedElement<int>({{2, 0}, {4, 1}, {2, 2}, {2, 3}});
     c.destroy_in_pool_first = *rc::gen::weightedElement<int>({{5, 0}, {1, 1}});
     if (c.attach_first && *range<int>(0, 2) == 0) c.wait_mode = 4;  // the attached thread waits by itself after it left the loop
-    c.free_fd0 = *rc::gen::weightedElement<int>({{4, 0}, {1, 1}});    // descriptor 0 is free while the pool is created (closed stdin)
+    c.free_fd0 = *rc::gen::weightedElement<int>({{4, 0}, {1, 1}});
+    c.hooks_mode = *rc::gen::weightedElement<int>({{4, 0}, {1, 1}, {2, 2}, {1, 3}});  // which hooks the settings install    // descriptor 0 is free while the pool is created (closed stdin)
     c.plan = *bytes_upto(24);
     int nf = *rc::gen::weightedElement<int>({{5, 0}, {2, 1}, {1, 2}});
     for (int i = 0; i < nf; i++) {
